@@ -229,7 +229,7 @@ def random_case(ctx, rng, d, k):
     def mk(depth):
         cnt[0] += 1
         me = cnt[0]
-        pays = [(rng.choice(["#app", "#rad", "cache://x", "p", "#app.bin", "długi"]) + rng.choice(["", "", "1", "2"]),
+        pays = [(rng.choice(["#app", "#rad", "cache://x", "p", "#app.bin", "długi", "2", "3", "20"]) + rng.choice(["", "", "1", "2", "", "3"]),
                  edged(envgen.blob(rng.choice([0, 1, 16, 300]), me * 10 + i), k + me + i)) for i in range(rng.choice([0, 1, 2, 2]))]
         if k % 7 == 3 and pays:
             pays.append((pays[0][0] + "\n", envgen.blob(5, me)))   # a legal name: the first one plus a trailing newline
@@ -285,6 +285,9 @@ def run(ctx: core.Check):
         names = [n for n, _ in e.payloads]
         if names:
             nm = ctx.rng.choice(names)
+            digits = [n for n in names if n.isdecimal()]   # a text key that spells the integer label of another member is a name
+            if digits and k % 2:
+                nm = ctx.rng.choice(digits)
             rep = ctx.rng.choice([None, b"", envgen.blob(33, k)])
             tofile = ctx.rng.random() < 0.6
             run_one(ctx, tr, root, nm, rep, tofile, "cli" if k % 30 == 0 else "lib",
